@@ -184,7 +184,7 @@ func RuleNI(fieldNames ...string) func(*Ctx) {
 			runFilled := false
 			c.P.Funcs(func(p *pkgT, fd *ast.FuncDecl) {
 				info := p.TypesInfo
-				if p == pk && (isOptionCtor(info, fd) || strings.HasPrefix(fd.Name.Name, "New")) {
+				if p == pk && (c.isOptionSetup(p, fd) || strings.HasPrefix(fd.Name.Name, "New")) {
 					return
 				}
 				ast.Inspect(fd.Body, func(x ast.Node) bool {
@@ -203,7 +203,7 @@ func RuleNI(fieldNames ...string) func(*Ctx) {
 			c.P.Funcs(func(p *pkgT, fd *ast.FuncDecl) {
 				info := p.TypesInfo
 				// the option constructor / NewJApiCore may initialise the field
-				isSetup := p == pk && (isOptionCtor(info, fd) || strings.HasPrefix(fd.Name.Name, "New"))
+				isSetup := p == pk && (c.isOptionSetup(p, fd) || strings.HasPrefix(fd.Name.Name, "New"))
 				ast.Inspect(fd.Body, func(x ast.Node) bool {
 					sel, ok := x.(*ast.SelectorExpr)
 					if !ok || info.ObjectOf(sel.Sel) != fld {
@@ -215,7 +215,7 @@ func RuleNI(fieldNames ...string) func(*Ctx) {
 					if isSetup {
 						// an option-filled set holds exactly what the options put there: the
 						// constructor allocates it, only an option constructor stores elements
-						if !runFilled && !isOptionCtor(info, fd) {
+						if !runFilled && !c.isOptionSetup(p, fd) {
 							stores := false
 							ast.Inspect(fd.Body, func(y ast.Node) bool {
 								if as, ok := y.(*ast.AssignStmt); ok {
@@ -252,6 +252,29 @@ func RuleNI(fieldNames ...string) func(*Ctx) {
 			}
 		}
 	}
+}
+
+// isOptionSetup: an option constructor, or a function every reference to which is a call
+// inside an option constructor (the body of the option's closure moved into a method).
+func (c *Ctx) isOptionSetup(pk *pkgT, fd *ast.FuncDecl) bool {
+	info := pk.TypesInfo
+	if isOptionCtor(info, fd) {
+		return true
+	}
+	self, _ := info.Defs[fd.Name].(*types.Func)
+	if self == nil || c.usedAsValue(self) {
+		return false
+	}
+	sites := c.callSitesOf(self)
+	if len(sites) == 0 {
+		return false
+	}
+	for _, cs := range sites {
+		if cs.Decl == nil || !isOptionCtor(cs.Pk.TypesInfo, cs.Decl) {
+			return false
+		}
+	}
+	return true
 }
 
 func isOptionCtor(info *types.Info, fd *ast.FuncDecl) bool {
